@@ -389,6 +389,7 @@ var skipInit = map[string]bool{
 	"internal/cpu": true, "sync": true, "testing": true,
 	"github.com/rcrowley/go-metrics": true, "go.etcd.io/bbolt": true,
 	"github.com/cenkalti/log": true,
+	"github.com/cenkalti/rain/v2/internal/logger": true,
 	"github.com/nictuku/dht": true,
 }
 
